@@ -925,7 +925,7 @@ def detect_strategy(tree):
     """native comprehension vs generator function, from the emitted AST"""
     genfn = native = False
     for node in ast.walk(tree):
-        if isinstance(node, (ast.FunctionDef, ast.AsyncFunctionDef)) and node.name.startswith("_hy_anon"):
+        if isinstance(node, (ast.FunctionDef, ast.AsyncFunctionDef)) and node.name.startswith("_hy_"):
             if any(isinstance(x, (ast.Yield, ast.YieldFrom)) for x in ast.walk(node)):
                 genfn = True
     if genfn:
